@@ -158,7 +158,10 @@ def okUnionDisjoint (a b : LocP) (ans : Option LocP) : Bool :=
   | none => true
   | some r => if nonOverlapLoc a.1 && nonOverlapLoc b.1 then nonOverlapLoc r.1 else true
 
-/-- union_preserve_overlaps: the multiset of covered positions is the sum; normal form -/
+/-- union_preserve_overlaps: the multiset of covered positions is the sum; no empty block; normal form when the
+    blocks of the two operands taken together do not overlap (the optimiser keeps overlapping blocks apart by
+    design, and "adjacent" has no clear meaning between blocks that overlap a third one: for
+    `(0,3) (0,1) (1,5) (3,6)` on the minus strand the library answers `(0,5) (0,3) (3,6)`) -/
 def okUnionPreserve (a b : LocP) (ans : Option LocP) : Bool :=
   if unionRefused a b then ans.isNone
   else match ans with
@@ -166,7 +169,9 @@ def okUnionPreserve (a b : LocP) (ans : Option LocP) : Bool :=
     | some r =>
       resultOk r a.2 &&
       sortNat (locationBases r.1) == sortNat (locationBases a.1 ++ locationBases b.1) &&
-      strandIs r.1 (locationStrand? a.1) && normalBlocks (locationBlocks r.1) && kindOk r.1
+      strandIs r.1 (locationStrand? a.1) && noEmptyBlock r.1 && kindOk r.1 &&
+      (if nonOverlap (sortBlocks .plus (locationBlocks a.1 ++ locationBlocks b.1))
+       then normalBlocks (locationBlocks r.1) else true)
 
 /-! ### minus -/
 
@@ -229,14 +234,17 @@ def okGapList (a : LocP) (ans : Option (List (Strand × Blk))) : Bool :=
 
 /-! ### optimisers -/
 
-/-- optimize_blocks: same multiset of covered positions, normal form, type promise -/
+/-- optimize_blocks: same multiset of covered positions, no empty block, type promise; normal form (no block ends
+    where the next one starts) for layouts that are not self-overlapping — see `okUnionPreserve` for why the claim
+    stops there -/
 def okOptimize (a : LocP) (ans : Option LocP) : Bool :=
   match ans with
   | none => false
   | some r =>
     resultOk r a.2 &&
     sortNat (locationBases r.1) == sortNat (locationBases a.1) &&
-    normalBlocks (locationBlocks r.1) && strandIs r.1 (locationStrand? a.1) && kindOk r.1
+    noEmptyBlock r.1 && strandIs r.1 (locationStrand? a.1) && kindOk r.1 &&
+    (if nonOverlapLoc a.1 then normalBlocks (locationBlocks r.1) else true)
 
 /-- optimize_and_combine_blocks (CompoundInterval only): same covered set, blocks pairwise separated -/
 def okOptCombine (a : LocP) (ans : Option LocP) : Bool :=
@@ -285,14 +293,20 @@ def okExtendAbs (a : LocP) (es ee : Int) (ans : Option LocP) : Bool :=
           (locationCovers a.1 p || (decide (lo ≤ p) && decide (p < s.1)) || (decide (s.2 ≤ p) && decide (p < hi)))) &&
         strandIs r.1 (locationStrand? a.1) &&
         (match a.1 with
-         | .compound _ => normalBlocks (locationBlocks r.1) && kindOk r.1
+         | .compound _ => noEmptyBlock r.1 && kindOk r.1
          | _ => true)
+
+/-- a CompoundInterval that is not self-overlapping is extended to a location in normal form -/
+def okExtendAbsNormal (a : LocP) (ans : Option LocP) : Bool :=
+  match a.1, ans with
+  | .compound _, some r => if nonOverlapLoc a.1 then normalBlocks (locationBlocks r.1) else true
+  | _, _ => true
 
 /-- extend_relative = extend_absolute with the arguments swapped on the minus strand; needs a direction -/
 def okExtendRel (a : LocP) (up down : Int) (ans : Option LocP) : Bool :=
   match locationStrand? a.1 with
-  | some .plus => okExtendAbs a up down ans
-  | some .minus => okExtendAbs a down up ans
+  | some .plus => okExtendAbs a up down ans && okExtendAbsNormal a ans
+  | some .minus => okExtendAbs a down up ans && okExtendAbsNormal a ans
   | _ => ans.isNone
 
 /-! ### distance -/
